@@ -433,6 +433,13 @@ func runC01(ctx *harness.Ctx) {
 		})
 		ctx.Exhaustive(fmt.Sprintf("%d size-sweep templates x every size 0..%d and 2^k-1..2^k+1 up to %d", len(sweepTemplates), ctx.Pick(sweepMax, 1100), ctx.Pick(4096, 16384)), ctx.ViolationCount() == 0)
 	})
+	ctx.Leg("size-sweep-2d", func() {
+		forSweep2(ctx, func(entry, src string, a, b int) bool {
+			c01One(ctx, nil, "size-sweep-2d", entryByName[entry], src)
+			return ctx.ViolationCount() < 6
+		})
+		ctx.Exhaustive(fmt.Sprintf("%d two-part templates x %d x %d boundary sizes", len(sweep2Templates), len(sweep2Sizes), len(sweep2Sizes)), ctx.ViolationCount() == 0)
+	})
 	ctx.Rapid("generated-list", ctx.Pick(1500, 30000), func(t *rapid.T) {
 		kind := rapid.SampledFrom([]string{"query", "ddl", "dml"}).Draw(t, "kind")
 		n := rapid.IntRange(2, 3).Draw(t, "n")
